@@ -539,6 +539,7 @@ func runQueue(kv map[string]string) string {
 		}(gi)
 	}
 	pre := int64(-1)
+	gaveUp := false // Run returned while the reporters were still reporting (dur= runs)
 	if late {
 		// cancel when about (jit%7+1)/8 of the reports are made; reporters notice a little later
 		target := int64(n) * (jit%7 + 1) / 8
@@ -554,6 +555,7 @@ func runQueue(kv map[string]string) string {
 		stop.Store(true)
 		wg.Wait()
 	} else if dur > 0 {
+		_ = gaveUp
 		// (round 6) a long run: when the aggregator's Run gives up in the middle of it (phout returns on the first write
 		// error and never empties its queue again) the reporters block for ever — that IS the observation
 		wgDone := make(chan struct{})
@@ -562,6 +564,7 @@ func runQueue(kv map[string]string) string {
 		case <-wgDone:
 			cancel()
 		case early := <-res:
+			gaveUp = true
 			stop.Store(true)
 			select {
 			case <-wgDone:
@@ -660,6 +663,9 @@ func runQueue(kv map[string]string) string {
 		last[e.g] = e.k
 	}
 	obs := fmt.Sprintf("reports=%d lines=%d dropped=%d err=%s order=%d dup=%d bad=%d closed=%d", made, len(lines), dropped, errS, order, dup, bad, b2i(closedOK))
+	if gaveUp {
+		obs += " gaveup=1"
+	}
 	if late {
 		miss := 0
 		for gi := range seqOf {
